@@ -17,3 +17,5 @@ def run(F, rep):
     rep.run(dt_msp.minpos_order_tables, F, rep, "C07.1")
     rep.run(dt_msp.scan_tables, F, rep, "C07.2")
     rep.run(dt_msp.cast_guards, F, rep, "C07.6")
+    # the wrappers (simple_scan, msp_sequence) hand the documented score to the scanner: perm[rank(p)], min over both strands in rc mode
+    rep.run(dt_msp.score_closure_tables, F, rep, "C07.7")
